@@ -177,6 +177,8 @@ def unop(f: Callable[[Expr], Expr], a: Val) -> Val:
     if isinstance(a2, Arr):
         return _flat_like(Arr(a2.axes, _sel_lift1(f, a2.elem), "nd"), a2)
     if isinstance(a, Bag):
+        if f is sym.neg and a.is_sorted:
+            return Bag(f(a.elem), a.size, True, a.src, None, {"asc": "desc", "desc": "asc"}.get(a.direction))
         return Bag(f(a.elem), a.size, False, a.src)
     return Unknown("unop", (generic_elem(a),))
 
@@ -341,8 +343,21 @@ def index(v: Val, idx: list, interp=None) -> Val:
         it = idx[0]
         if it[0] in ("int", "expr") and len(idx) == 1:
             return Sc(v.elem)
-        if it[0] in ("slice", "full", "mask") and len(idx) == 1:
-            return Bag(v.elem, None, v.is_sorted, v.src, v.parts)
+        if it[0] == "full" and len(idx) == 1:
+            return Bag(v.elem, v.size, v.is_sorted, v.src, v.parts, v.direction)
+        if it[0] == "slice" and len(idx) == 1:
+            lo, hi, st = it[1], it[2], it[3]
+            whole = lo is None and hi is None
+            if st is None or st == sym.ONE:
+                d = v.direction
+            elif st == sym.Num(-1):
+                d = {"asc": "desc", "desc": "asc"}.get(v.direction)
+            else:
+                d = None
+                whole = False
+            return Bag(v.elem, v.size if whole else None, v.is_sorted, v.src, v.parts, d)
+        if it[0] == "mask" and len(idx) == 1:
+            return Bag(v.elem, None, v.is_sorted, v.src, v.parts, v.direction)
         return Unknown("index-bag", (v.elem,))
     if isinstance(v, Concat):
         it = idx[0]
